@@ -439,18 +439,18 @@ Hypothesis LA : length A = (n * n)%nat.
    part of row r correctly computed (M1), the pivot a(r,r) - sum_{i<r} l(r,i)^2 is below tiny
    (in particular: every non-positive pivot) *)
 Definition llt_failed : Prop :=
-  exists r M0 M1, (r < n)%nat /\ LltInv n (mg n A) r M0 /\
+  exists r M0 M1, (r < n)%nat /\ LltInv tiny n (mg n A) r M0 /\
     (forall c, (c < r)%nat -> mg n A r c = rsum (fun i => mg n M1 r i * mg n M0 c i) (S c)) /\
     llt_pivot n (mg n A) M1 r < tiny.
 
 Lemma llt_spec :
   exists rc M, llt RO n A = Some (rc, M) /\ length M = (n * n)%nat /\
-    ((rc = 0%nat /\ LltInv n (mg n A) n M) \/ (rc = 1%nat /\ llt_failed)).
+    ((rc = 0%nat /\ LltInv tiny n (mg n A) n M) \/ (rc = 1%nat /\ llt_failed)).
 Proof.
   unfold llt.
   destruct (for_range_inv
               (fun k (s : nat * list R) => length (snd s) = (n * n)%nat /\
-                 ((fst s = 0%nat /\ LltInv n (mg n A) k (snd s)) \/ (fst s = 1%nat /\ llt_failed)))
+                 ((fst s = 0%nat /\ LltInv tiny n (mg n A) k (snd s)) \/ (fst s = 1%nat /\ llt_failed)))
               0 n
               (fun r (s : nat * list R) => if Nat.eqb (fst s) 0 then llt_step RO n r (snd s) else Some s)
               (0%nat, A)) as (s & E & L & P).
